@@ -44,7 +44,7 @@ META = {
              'behavioural counters record how many changed pixels, were clipped, raised errors'),
     'design_ref': 'DESIGN.md section 4 C30',
     'assumptions': ['page pixel buffers read through VideoBuffer internals are the same data Session.get_pixels exposes (checked at run time)'],
-    'require_counters': {'any': ['mode_switches_nonzero_active_page', 'stmts_changed_pixels', 'stmts_clipped', 'stmts_clipped_changed', 'stmts_active_ne_visible',
+    'require_counters': {'any': ['put_partly_outside', 'mode_switches_nonzero_active_page', 'stmts_changed_pixels', 'stmts_clipped', 'stmts_clipped_changed', 'stmts_active_ne_visible',
                                  'other_pages_compared', 'text_ifc_seen', 'view_set', 'window_set', 'put_drew',
                                  'paint_filled', 'err_5', 'err_6']},
     'timeout': {'quick': 900, 'thorough': 3600},
@@ -73,7 +73,7 @@ def plan(tier, seed):
     if tier == 'quick':
         groups = gfx.balanced_groups(labels, 12, _cost)
         for i, g in enumerate(groups):
-            shards.append({'kind': 'gfx', 'modes': g, 'n': 300, 'part': i, 'directed': True})
+            shards.append({'kind': 'gfx', 'modes': g, 'n': 220, 'part': i, 'directed': True})
         shards.append({'kind': 'text', 'n': 12, 'part': 0})
     else:
         for l in labels:
@@ -491,12 +491,27 @@ class Monitor(object):
                 self.st.window = None
         self.snapshot = None
 
-    def check(self, kind, stmt, outside):
-        """Run one statement under observation."""
+    def corrupt(self, e, kind, stmt, case):
+        """An observation of the session failed after `stmt`: report it and give the session up."""
+        self.res.violation('frame:page-buffer-corrupted:%s' % e.what,
+                           '%s: after %s the screen can no longer be observed: %s' % (
+                               self.g.mode['label'] if self.g.mode else 'text', stmt.decode('latin-1'), e), case)
+        self.res.count('page_buffer_corruptions')
+        err = harness.Internal(e, 'corrupt', '')
+        err.reported = True
+        raise err
+
+    def check(self, kind, stmt, outside, must_reject=False):
+        """Run one statement under observation.  must_reject: a PUT whose rectangle is partly outside the
+        viewport: error 5 and an unchanged screen are expected (GW-BASIC manual: the image must fit)."""
         g, res, st = self.g, self.res, self.st
         case = {'mode': g.mode['label'], 'apage': g.apage, 'vpage': g.vpage, 'view': st.view, 'window': st.window,
                 'stmt': stmt}
-        before = self.snapshot if self.snapshot is not None else g.snap()
+        self.last = (kind, stmt, case)
+        try:
+            before = self.snapshot if self.snapshot is not None else g.snap()
+        except gfx.Corrupt as e:
+            self.corrupt(e, kind, b'<earlier statement, found before> ' + stmt, case)
         old_rect = st.rect
         try:
             with gfx.cpu_guard(HANG_CPU_SECONDS):
@@ -527,7 +542,10 @@ class Monitor(object):
         if code < 0:
             res.inconclusive('harness: statement could not be run (%d): %r' % (code, stmt))
             return 'break'
-        after = g.snap()
+        try:
+            after = g.snap()
+        except gfx.Corrupt as e:
+            self.corrupt(e, kind, stmt, case)
         self.snapshot = after
         if code:
             res.count('err_%d' % code)
@@ -575,6 +593,15 @@ class Monitor(object):
                 res.violation('frame:pixel-outside-viewport:' + kind,
                               '%s: %s changed %d pixel(s) outside the viewport %r, first at %r (view=%r window=%r)' % (
                                   g.mode['label'], stmt.decode('latin-1'), n, allowed, first, st.view, st.window), case)
+        if must_reject and st.window is None:
+            res.count('put_partly_outside')
+            if code == 0:
+                res.violation('frame:put-partly-outside-not-rejected',
+                              '%s: %s (sprite partly outside the viewport %r) was executed without an error' % (
+                                  g.mode['label'], stmt.decode('latin-1'), old_rect), case)
+            elif changed_any:
+                res.violation('frame:rejected-put-changed-pixels',
+                              '%s: %s raised error 5 but changed the active page' % (g.mode['label'], stmt.decode('latin-1')), case)
         if changed_any:
             res.count('stmts_changed_pixels')
             if kind == 'PUT':
@@ -600,8 +627,11 @@ class Monitor(object):
             st.view = None
             self.snapshot = None
         if self.n % 60 == 0:
-            if not g.validate_fast():
-                res.count('snapshot_fallbacks')
+            try:
+                if not g.validate_fast():
+                    res.count('snapshot_fallbacks')
+            except gfx.Corrupt as e:
+                self.corrupt(e, kind, stmt, case)
             self.snapshot = None
         return code
 
@@ -642,16 +672,22 @@ def _run_mode(spec, rng, res, label):
                     if g.npages > 1:
                         res.count('multi_page_modes')
                 mon = Monitor(g, res, spec)
-                mon.background(random.Random('%s:C30:bg:%s' % (spec['seed'], label)))
                 try:
+                    mon.background(random.Random('%s:C30:bg:%s' % (spec['seed'], label)))
                     if what == 'directed':
                         directed(mon, rng)
                     else:
                         randomised(mon, rng, n)
                     done = True
-                except harness.Internal as e:
+                except (harness.Internal, gfx.Corrupt) as e:
                     # the session may be inconsistent: start a new one
-                    if not getattr(e, 'reported', False):
+                    if isinstance(e, gfx.Corrupt):
+                        last = getattr(mon, 'last', None)
+                        res.violation('frame:page-buffer-corrupted:%s' % e.what,
+                                      '%s: the screen can no longer be observed (%s); last statement under test: %s' % (
+                                          label, e, last[1].decode('latin-1') if last else 'none'), last[2] if last else {'mode': label})
+                        res.count('page_buffer_corruptions')
+                    elif not getattr(e, 'reported', False):
                         res.violation(e.key, '%s: host exception in a set-up statement (SCREEN/VIEW/WINDOW/background LINE): %s' % (label, e),
                                       {'mode': label, 'phase': what})
                     g.close()
@@ -695,7 +731,7 @@ def randomised(mon, rng, n):
             # all pages are blank now: use visible colours, then restore the patchwork
             for _ in range(rng.randint(8, 16)):
                 kind, stmt, out = gen_statement(rng, st)
-                if len(stmt) <= 240 and mon.check(kind, stmt, out) == 'break':
+                if len(stmt) <= 240 and mon.check(kind, stmt, out, must_reject=(kind == 'PUT' and out)) == 'break':
                     break
             mon.background(rng)
             mon.snapshot = None
@@ -714,7 +750,7 @@ def randomised(mon, rng, n):
             kind, stmt, out = gen_statement(rng, st)
             if len(stmt) > 240:
                 continue
-            if mon.check(kind, stmt, out) == 'break':
+            if mon.check(kind, stmt, out, must_reject=(kind == 'PUT' and out)) == 'break':
                 _after_break(mon, rng)
                 mon.set_pages(rng)
 
@@ -830,8 +866,23 @@ def directed(mon, rng):
         for verb in (b',PSET', b',PRESET', b',AND', b',OR', b',XOR', b''):
             tx, ty = drng.choice([(xa, ya), (xb - sw + 1, ya), (xa, yb - sh + 1), (xb - sw + 1, yb - sh + 1)])
             stmts.append(gen_put(drng, st_for(st, v), verb=verb, target=(tx, ty), size=(sw, sh))[:2])
-        for (tx, ty) in [(xa - 1, ya), (xa, ya - 1), (xb - sw + 2, ya), (xa, yb - sh + 2), (xb, yb), (-1, -1), (w, h), (30000, 30000), (40000, 0)]:
+        for (tx, ty) in [(-1, -1), (w, h), (30000, 30000), (40000, 0)]:
             stmts.append(gen_put(drng, st_for(st, v), verb=b',PSET', target=(tx, ty), size=(sw, sh))[:2])
+        # one corner inside, one outside: over every edge and corner of the viewport (= of the screen when no VIEW
+        # is set), by one pixel and by most of the sprite, with every verb: must be refused, nothing may change
+        mx0, my0 = (xa + xb - sw) // 2, (ya + yb - sh) // 2
+        partly = [(xa - 1, my0), (xb - sw + 2, my0), (mx0, ya - 1), (mx0, yb - sh + 2),
+                  (xa - sw + 1, ya - sh + 1), (xb, ya - sh + 1), (xa - sw + 1, yb), (xb, yb),
+                  (xa - sw + 1, my0), (xb, my0), (mx0, ya - sh + 1), (mx0, yb)]
+        must = set()
+        for vi2, verb in enumerate((b',PSET', b',PRESET', b',AND', b',OR', b',XOR', b'')):
+            for pi, (tx, ty) in enumerate(partly):
+                if sw < 2 or sh < 2 or (pi + vi2) % 2 and vi > 1:
+                    continue
+                k, ps, outside = gen_put(drng, st_for(st, v), verb=verb, target=(tx, ty), size=(sw, sh))
+                if outside:
+                    must.add(ps)
+                    stmts.append((k, ps))
         for kind, s in stmts:
             pos += 1
             mon.directed_pos = pos
@@ -840,7 +891,7 @@ def directed(mon, rng):
                 if kind == 'VIEW':
                     mon.check(kind, s, True)
                 continue
-            if mon.check(kind, s, True) == 'break':
+            if mon.check(kind, s, True, must_reject=s in must) == 'break':
                 _after_break(mon, drng)
                 if v is not None:
                     mon.check(*stmts[0], outside=True)
@@ -921,6 +972,8 @@ def probes(res, label):
                         g.direct(b'VIEW(10,10)-(%d,%d)' % (g.w // 2, g.h // 2))
                         mon.snapshot = None
                         mon.check(kind, s, True)
+        except gfx.Corrupt as e:
+            res.violation('frame:page-buffer-corrupted:%s' % e.what, '%s: probe %s: %s' % (label, name, e), {'mode': label})
         except harness.Internal as e:
             if not getattr(e, 'reported', False):
                 res.violation(e.key, '%s: host exception in a set-up statement of probe %s: %s' % (label, name, e), {'mode': label})
@@ -953,12 +1006,22 @@ TEXT_STMTS = [
 def run_text(spec, rng, res):
     for name, kw in gfx.TEXT_ADAPTERS:
         for width in (40, 80):
+            try:
+                _text_session(spec, rng, res, name, kw, width)
+            except gfx.Corrupt as e:
+                res.violation('frame:page-buffer-corrupted:%s' % e.what, '%s width %d (text mode): %s' % (name, width, e),
+                              {'adapter': name, 'width': width})
+
+
+def _text_session(spec, rng, res, name, kw, width):
+    if True:
+        if True:
             with gfx.GBox(None, kw=kw) as g:
                 box = g.box
                 code = g.direct(b'SCREEN 0:WIDTH %d' % width)
                 if code:
                     res.inconclusive('text mode set-up failed on %s width %d (error %d)' % (name, width, code))
-                    continue
+                    return
                 npages = len(g.display.pages)
                 # put text on every page
                 for p in range(npages):
